@@ -6,6 +6,8 @@ R2  the parallel and serial schedules run the same per-variable stages
 R3  biases that talk to peers never enter the parallel loop
 R4  no reachable floating-point reduction (OPES OpenMP regions are dead: one thread)
 R5  smp_loop combines return codes atomically
+R6  work items address components in the index space of their consumer
+R7  slice discipline: every stage a work item runs on its (first, count) slice loops over exactly that slice
 """
 from . import expr as X
 from . import cond as C
@@ -558,6 +560,89 @@ def r6(F, rep):
                    "the threaded value differs from the serial one", func=f.q)
 
 
+def r7(F, rep):
+    rep.rule("C12-R7", "slice discipline: the function a parallel work item calls with (first component, count) hands that pair "
+                       "unchanged to each stage; every loop of a stage that subscripts a member container with its loop variable "
+                       "starts from the `first` parameter and is limited by a count derived from the `count` parameter -- a stage "
+                       "that starts from 0 makes every item recompute the first component (a data race) and never its own")
+    worker = F.one("colvarmodule::calc_component_smp")
+    disp = []
+    for c in X.calls(worker):
+        g = F.funcs.get(c.get("callee"))
+        if g is not None and len(g.params) == 2 and len(X.call_args(c)) == 2 and g.cls == "colvar":
+            disp.append(g)
+    if len(disp) != 1:
+        raise AnalysisBroken("C12-R7: dispatcher called by calc_component_smp with (item, count) not found")
+    d = disp[0]
+    p0, p1 = d.params[0]["d"], d.params[1]["d"]
+    stages = []
+    for c in X.calls(d):
+        a = X.call_args(c)
+        g = F.funcs.get(c.get("callee"))
+        if g is None or g.cls != d.cls or len(a) != 2 or len(g.params) != 2:
+            continue
+        a0, a1 = X.strip(a[0]), X.strip(a[1])
+        fwd = a0["k"] == "DeclRefExpr" and a0.get("d") == p0 and a1["k"] == "DeclRefExpr" and a1.get("d") == p1
+        rep.add("C12-R7", "%s|forward|%s" % (d.q, g.q), d.loc(c), "%s passes its (first, count) pair %s to %s" % (
+            d.q, "unchanged" if fwd else "CHANGED (`%s`, `%s`)" % (X.text(a[0], d)[:30], X.text(a[1], d)[:30]), g.q), fwd, func=d.q)
+        if g.q not in [x.q for x in stages]:
+            stages.append(g)
+    nloops = 0
+    for g in stages:
+        q0, q1 = g.params[0]["d"], g.params[1]["d"]
+        # locals derived from the count parameter
+        derived = {q1}
+        for v in g.walk():
+            if v["k"] == "VarDecl" and X.kids(v) and X.mentions(X.kids(v)[0], lambda n: n["k"] == "DeclRefExpr" and n.get("d") in derived):
+                derived.add(v.get("d"))
+        for l in g.walk():
+            if l["k"] != "ForStmt":
+                continue
+            init, cond, body = l["c"][0], l["c"][1], l["c"][-1]
+            if init is None or cond is None or body is None:
+                continue
+            # loop variables: assigned / declared in the init
+            lv = set()
+            for n in _walk_nodes(init):
+                if n["k"] == "VarDecl":
+                    lv.add(n.get("d"))
+                if n["k"] == "BinaryOperator" and n.get("op") == "=":
+                    t = X.strip(X.kids(n)[0])
+                    if t["k"] == "DeclRefExpr":
+                        lv.add(t.get("d"))
+            subs = [n for n in _walk_nodes(body) if n["k"] == "CXXOperatorCallExpr" and n.get("op") == "[]" and
+                    X.key(X.call_args(n)[0], g).startswith("this.") and
+                    X.strip(X.call_args(n)[1])["k"] == "DeclRefExpr" and X.strip(X.call_args(n)[1]).get("d") in lv]
+            if not subs:
+                continue
+            nloops += 1
+            idx = X.strip(X.call_args(subs[0])[1]).get("d")
+            from_first = False
+            for n in _walk_nodes(init):
+                rhs = None
+                if n["k"] == "VarDecl" and n.get("d") == idx and X.kids(n):
+                    rhs = X.kids(n)[0]
+                if n["k"] == "BinaryOperator" and n.get("op") == "=" and X.strip(X.kids(n)[0]).get("d") == idx:
+                    rhs = X.kids(n)[1]
+                if rhs is not None and X.mentions(rhs, lambda m: m["k"] == "DeclRefExpr" and m.get("d") == q0):
+                    from_first = True
+            limited = X.mentions(cond, lambda m: m["k"] == "DeclRefExpr" and m.get("d") in derived)
+            ok = from_first and limited
+            rep.add("C12-R7", "%s|loop over %s" % (g.q, X.re_strip(X.key(X.call_args(subs[0])[0], g))), g.loc(l),
+                    "%s: loop over `%s` starts from its first parameter: %s; limited by a count derived from its second: %s" % (
+                        g.q, X.re_strip(X.key(X.call_args(subs[0])[0], g)), from_first, limited), ok,
+                    detail="called as (item, 1) from concurrently running work items of one variable", func=g.q)
+    if len(stages) < 4 or nloops < 4:
+        raise AnalysisBroken("C12-R7: %d stages / %d slice loops found (values, gradients, total force, Jacobians expected)" % (len(stages), nloops))
+
+
+def _walk_nodes(n):
+    yield n
+    for c in X.kids(n):
+        if c is not None:
+            yield from _walk_nodes(c)
+
+
 def run(F, rep, tier):
     r1(F, rep)
     r2(F, rep)
@@ -565,3 +650,4 @@ def run(F, rep, tier):
     r4(F, rep)
     r5(F, rep)
     r6(F, rep)
+    r7(F, rep)
